@@ -125,11 +125,83 @@ def py_preds(fn):
                 and isinstance(n.left, ast.Name) and isinstance(n.comparators[0], ast.Name):
             preds.discard((jsast.py_name(n.left), type(n.ops[0]).__name__, jsast.py_name(n.comparators[0])))
             preds.add((jsast.py_name(n.comparators[0]), 'Contains' if isinstance(n.ops[0], ast.In) else 'NotContains', jsast.py_name(n.left)))
+    preds = expand_loop_vars(preds, py_loop_literals(fn))
     for p in preds:
         q = norm_pred(p, 'py')
         if q is not None:
             out.add(q)
     return expand_in(out), {c for c in consts if c not in STRUCTURAL_CONSTS}
+
+
+def py_loop_literals(fn):
+    """{variable: [literal elements]} for loop / comprehension variables that range over a literal sequence"""
+    out = {}
+    def lit(it):
+        if isinstance(it, ast.Constant) and isinstance(it.value, str):
+            return list(it.value)
+        if isinstance(it, (ast.Tuple, ast.List, ast.Set)) and it.elts and all(isinstance(x, ast.Constant) for x in it.elts):
+            return [jsast.num(x.value) for x in it.elts]
+        return None
+    for n in ast.walk(fn):
+        if isinstance(n, ast.For) and isinstance(n.target, ast.Name):
+            v = lit(n.iter)
+            if v is not None:
+                out[jsast.camel(n.target.id)] = v
+        if isinstance(n, ast.comprehension) and isinstance(n.target, ast.Name):
+            v = lit(n.iter)
+            if v is not None:
+                out[jsast.camel(n.target.id)] = v
+    return out
+
+
+def js_loop_literals(fn):
+    out = {}
+    def lit(it):
+        if it['type'] == 'Literal' and isinstance(it.get('value'), str):
+            return list(it['value'])
+        if it['type'] == 'ArrayExpression' and it['elements'] and all(x and x['type'] == 'Literal' for x in it['elements']):
+            return [jsast.num(x['value']) for x in it['elements']]
+        return None
+    for n in jsast.jwalk(fn):
+        t = n.get('type')
+        if t in ('ForOfStatement', 'ForInStatement'):
+            left = n['left']
+            tgt = left['declarations'][0]['id'] if left['type'] == 'VariableDeclaration' else left
+            if tgt['type'] != 'Identifier':
+                continue
+            if t == 'ForInStatement' and n['right']['type'] == 'ObjectExpression':
+                ks = [p_['key'].get('value', p_['key'].get('name')) for p_ in n['right']['properties'] if p_['type'] == 'Property']
+                out[tgt['name']] = ks
+            else:
+                v = lit(n['right'])
+                if v is not None:
+                    out[tgt['name']] = v
+        if t == 'CallExpression' and n['callee']['type'] == 'MemberExpression' and not n['callee']['computed'] \
+                and n['callee']['property'].get('name') in ('find', 'some', 'every', 'filter', 'forEach', 'map', 'findIndex') and n['arguments'] \
+                and n['arguments'][0]['type'] in ('ArrowFunctionExpression', 'FunctionExpression') and n['arguments'][0]['params'] \
+                and n['arguments'][0]['params'][0]['type'] == 'Identifier':
+            v = lit(n['callee']['object'])
+            if v is not None:
+                out[n['arguments'][0]['params'][0]['name']] = v
+    return out
+
+
+def expand_loop_vars(preds, lits):
+    """a predicate that mentions a variable ranging over a literal sequence stands for one predicate per element (the name of the loop
+    variable is not part of the behaviour)"""
+    if not lits:
+        return preds
+    out = set()
+    for s_, op, v in preds:
+        if isinstance(v, str) and v in lits:
+            for x in lits[v]:
+                out.add((s_, op, x))
+        elif isinstance(s_, str) and s_ in lits and not isinstance(v, tuple):
+            for x in lits[s_]:
+                out.add((v, 'Contains' if op in ('In',) else op, x) if op == 'In' else (s_, op, v))
+        else:
+            out.add((s_, op, v))
+    return out
 
 
 def expand_in(preds):
@@ -165,7 +237,7 @@ def js_preds(fn):
             else:
                 hp.add((jsast.js_name(l), op, jsast.js_name(r)))
     out = set()
-    for p in preds - hp:
+    for p in expand_loop_vars(preds - hp, js_loop_literals(fn)):
         q = norm_pred(p, 'js')
         if q is not None:
             out.add(q)
